@@ -170,17 +170,37 @@ def build_T5(tree):
             where = ast.unparse(node.value)
     if where is None:
         raise Unsupported('query_template not found')
-    # the WHERE clause is part of the translated span: its shape is checked textually
+    # the WHERE clause is part of the translated span: the whole query template, the ORDER BY string and the two `.format`
+    # calls are compared for EQUALITY after whitespace normalisation (an ordered-substring test would let arithmetic such as
+    # `{row_end} - 1` appended to a fragment pass unnoticed)
     norm = ''.join(where.split())
-    expected = ["L.RowPositionInTotalImagePixelMatrix>=", "{row_offset_start}", "L.RowPositionInTotalImagePixelMatrix<{row_end}",
-                "L.ColumnPositionInTotalImagePixelMatrix>=", "{column_offset_start}",
-                "L.ColumnPositionInTotalImagePixelMatrix<{column_end}"]
-    pos = 0
-    for e in expected:
-        i = norm.find(e, pos)
-        if i < 0:
-            raise Unsupported(f'WHERE clause of tiled-region query changed (missing {e})')
-        pos = i + len(e)
+    expected_template = (
+        "f'SELECT{{selection_str}}FROMFrameLUTL{''.join(channel_join_lines)}WHERE("
+        "L.RowPositionInTotalImagePixelMatrix>={row_offset_start}ANDL.RowPositionInTotalImagePixelMatrix<{row_end}"
+        "ANDL.ColumnPositionInTotalImagePixelMatrix>={column_offset_start}ANDL.ColumnPositionInTotalImagePixelMatrix<{column_end}"
+        "{filter_str.replace('WHERE','AND')}){{order_str}}'")
+    if norm != expected_template:
+        raise Unsupported('query template of the tiled-region query changed: ' + norm[:400])
+    others = {}
+    for node in ast.walk(fn):
+        if isinstance(node, ast.Assign) and isinstance(node.targets[0], ast.Name) and \
+                node.targets[0].id in ('order_str', 'counting_query', 'full_query'):
+            others[node.targets[0].id] = ''.join(ast.unparse(node.value).split())
+    expected_others = {
+        'order_str': "'ORDERBYL.RowPositionInTotalImagePixelMatrix,L.ColumnPositionInTotalImagePixelMatrix'",
+        'full_query': 'query_template.format(selection_str=selection_str,order_str=order_str)',
+        'counting_query': "query_template.format(selection_str='COUNT(*)',order_str='')",
+    }
+    if others != expected_others:
+        raise Unsupported(f'ORDER BY / format calls of the tiled-region query changed: {others}')
+    # the generator iterates the executed full query and the missing-frame test compares the count query with v*h frames
+    body_txt = ''.join(ast.unparse(fn).split())
+    for needle in ("forrp,cp,fi,*channelinself._db_con.execute(full_query)",
+                   "found_number=next(self._db_con.execute(counting_query))[0]",
+                   "number_of_output_frames=v_frames*h_frames",
+                   "iffound_number!=number_of_output_frames:raiseRuntimeError("):
+        if needle not in body_txt:
+            raise Unsupported('tiled-region query use changed (missing ' + needle + ')')
     ret = ast.Return(value=ast.Tuple(elts=[
         ast.Name(id='row_offset_start', ctx=ast.Load()), ast.Name(id='column_offset_start', ctx=ast.Load()),
         ast.Name(id='v_frames', ctx=ast.Load()), ast.Name(id='h_frames', ctx=ast.Load()),
@@ -289,3 +309,87 @@ for _f in sorted(_glob.glob(_os.path.join(_os.path.dirname(_os.path.abspath(__fi
         if _k in TARGETS:
             raise RuntimeError(f'duplicate translation target {_k} in {_f}')
         TARGETS[_k] = _v
+
+
+def build_T1b(tree):
+    """call skeleton of `_Image.get_stored_frame` and `_Image.get_stored_frames`: which expressions reach
+    `_standardize_frame_index`, `get_raw_frame`, `decode_frame(index=…)` and the cached-pixel-array subscript; the default
+    frame ranges of the batch method.  (Audit A, C05-1/C05-2: the batch and cached paths were hand-modelled.)"""
+    texts, shas = [], []
+    for fname, prefix, flag in (('get_stored_frame', 'single', 'as_index'), ('get_stored_frames', 'batch', 'as_indices')):
+        fn = find_func(tree, f'_Image.{fname}')
+        params = [('frame_number', 'int'), (flag, 'bool'), ('frame_index', 'int')]
+
+        def one(pred, what):
+            hits = [n for n in ast.walk(fn) if pred(n)]
+            if len(hits) != 1:
+                raise Unsupported(f'{fname}: expected exactly one {what}, found {len(hits)}')
+            return hits[0]
+        std = one(lambda n: isinstance(n, ast.Call) and ast.unparse(n.func) == 'self._standardize_frame_index', 'call of _standardize_frame_index')
+        if len(std.args) != 2 or std.keywords:
+            raise Unsupported(f'{fname}: _standardize_frame_index no longer called with two positional arguments')
+        raw = one(lambda n: isinstance(n, ast.Call) and ast.unparse(n.func) == 'self.get_raw_frame', 'call of get_raw_frame')
+        rk = {k.arg: k.value for k in raw.keywords}
+        if len(raw.args) != 1 or set(rk) != {'as_index'}:
+            raise Unsupported(f'{fname}: get_raw_frame call shape changed')
+        dec = one(lambda n: isinstance(n, ast.Call) and ast.unparse(n.func) == 'decode_frame', 'call of decode_frame')
+        dk = {k.arg: ast.unparse(k.value) for k in dec.keywords}
+        want = {'value': 'raw_frame', 'rows': 'self.Rows', 'columns': 'self.Columns', 'samples_per_pixel': 'self.SamplesPerPixel',
+                'bits_allocated': 'self.BitsAllocated', 'transfer_syntax_uid': 'self.transfer_syntax_uid'}
+        for k, v in want.items():
+            if dk.get(k) != v:
+                raise Unsupported(f'{fname}: decode_frame({k}=…) is {dk.get(k)!r}, expected {v!r}')
+        if dec.args or 'index' not in dk:
+            raise Unsupported(f'{fname}: decode_frame call shape changed')
+        dindex = [k.value for k in dec.keywords if k.arg == 'index'][0]
+        cached = one(lambda n: isinstance(n, ast.If) and ast.unparse(n.test) == 'self.number_of_frames == 1', 'test number_of_frames == 1')
+        if not (len(cached.body) == 1 and ast.unparse(cached.body[0]) == 'frame = self.pixel_array' and len(cached.orelse) == 1
+                and isinstance(cached.orelse[0], ast.Assign) and isinstance(cached.orelse[0].value, ast.Subscript)
+                and ast.unparse(cached.orelse[0].value.value) == 'self.pixel_array'
+                and ast.unparse(cached.orelse[0].targets[0]) == 'frame'):
+            raise Unsupported(f'{fname}: cached pixel-array branch changed shape')
+        csub = cached.orelse[0].value.slice
+        outer = one(lambda n: isinstance(n, ast.If) and ast.unparse(n.test) == 'self._pixel_array is None' and cached in ast.walk(n),
+                    'test self._pixel_array is None')
+        if cached not in outer.orelse:
+            raise Unsupported(f'{fname}: cached branch is no longer the else-arm of `self._pixel_array is None`')
+
+        def ret(*exprs):
+            r = ast.Return(value=ast.Tuple(elts=list(exprs), ctx=ast.Load()) if len(exprs) > 1 else exprs[0])
+            ast.fix_missing_locations(r)
+            return [r]
+        texts.append(translate_block(ret(std.args[0], std.args[1]), f'{prefix}StdArgs', params, {},
+                                     doc=f'`{fname}`: the arguments handed to `_standardize_frame_index`'))
+        texts.append(translate_block(ret(raw.args[0], rk['as_index']), f'{prefix}RawArgs', params, {},
+                                     doc=f'`{fname}`: the arguments handed to `get_raw_frame` (which standardises them again)'))
+        texts.append(translate_block(ret(dindex), f'{prefix}DecodeIndex', params, {},
+                                     doc=f'`{fname}`: `decode_frame(..., index=…)`'))
+        texts.append(translate_block(ret(csub), f'{prefix}CacheIndex', params, {},
+                                     doc=f'`{fname}`: subscript of the cached `pixel_array` (taken when number_of_frames != 1)'))
+        shas.append(span_sha([std, raw, dec, cached]))
+    # default ranges of the batch method
+    fn = find_func(tree, '_Image.get_stored_frames')
+    none_if = [n for n in fn.body if isinstance(n, ast.If) and ast.unparse(n.test) == 'frame_numbers is None']
+    if len(none_if) != 1 or len(none_if[0].body) != 1 or not isinstance(none_if[0].body[0], ast.If) or none_if[0].orelse:
+        raise Unsupported('get_stored_frames: default-range block changed shape')
+    inner = none_if[0].body[0]
+
+    def rng(stmts):
+        if len(stmts) != 1 or not isinstance(stmts[0], ast.Assign) or ast.unparse(stmts[0].targets[0]) != 'frame_numbers':
+            raise Unsupported('get_stored_frames: default-range assignment changed')
+        v = stmts[0].value
+        if not (isinstance(v, ast.Call) and ast.unparse(v.func) == 'range' and len(v.args) == 2):
+            raise Unsupported('get_stored_frames: default frame numbers are no longer range(a, b)')
+        r = ast.Return(value=ast.Tuple(elts=list(v.args), ctx=ast.Load()))
+        ast.fix_missing_locations(r)
+        return [r]
+    blk = ast.If(test=inner.test, body=rng(inner.body), orelse=rng(inner.orelse))
+    ast.fix_missing_locations(blk)
+    texts.append(translate_block([blk], 'batchDefaultRange', [('as_indices', 'bool')],
+                                 {'self.number_of_frames': ('int', 'numberOfFrames')},
+                                 doc='`get_stored_frames(frame_numbers=None)`: the half-open range (a, b) of `range(a, b)`'))
+    shas.append(span_sha([none_if[0]]))
+    return '\n\n'.join(texts), hashlib.sha256(''.join(shas).encode()).hexdigest()
+
+
+TARGETS['T1b'] = {'file': 'image.py', 'build': build_T1b}
